@@ -19,6 +19,8 @@ pub struct CaseSink {
     /// human-readable form of each case (for replays), one JSON value per case, by shard
     descr: Vec<serde_json::Value>,
     extra_defs: String,
+    /// when set: every pushed term `(Ctor args)` becomes `(Wrapper (Module.Ctor args))`
+    pub wrap: Option<(String, String)>,
 }
 
 impl CaseSink {
@@ -45,6 +47,7 @@ impl CaseSink {
             samples: vec![],
             descr: vec![],
             extra_defs: String::new(),
+            wrap: None,
         }
     }
 
@@ -58,6 +61,10 @@ impl CaseSink {
     /// Add one case: its Coq term, a JSON description (replay), and whether it is
     /// non-trivial by the property's stated rule.
     pub fn push(&mut self, term: String, descr: serde_json::Value, nontrivial: bool) {
+        let term = match &self.wrap {
+            Some((w, m)) => format!("({} ({}.{})", w, m, &term[1..]),
+            None => term,
+        };
         let mut h = std::collections::hash_map::DefaultHasher::new();
         term.hash(&mut h);
         let fresh = self.seen.insert(h.finish());
